@@ -3,6 +3,7 @@ CONSTANTS N = 4
           NMin = 4
           Adj <- Adj3
           D0 = 1000000
+          Rule = "eth"
           Family = "all"
           LA = 0
           LB = 0
@@ -11,4 +12,5 @@ CONSTANTS N = 4
           InOrder = TRUE
           EmitOn = TRUE
 CONSTRAINT Emit
+INVARIANT PropC27
 CHECK_DEADLOCK FALSE
